@@ -766,9 +766,13 @@ def run(res, tier, seed, proofs_ok):
                                'observed': repr(out)}, found_input=True)
         if out[0] == 'ok' and not finite(out[1]):
             continue     # nan/inf out of a malformed input: class only
-        base_cases.append(cpair(clist(csurf(s) for s in surfs),
-                                cres(out, lambda v: clist(cvec(x) for x in v))))
-        base_meta.append(surfs)
+        if not quick or num % 2 == 0 or fault is not None:
+            # (the sweep above checks every prism on the implementation; in the
+            # quick tier the model is run on every second admissible one)
+            base_cases.append(cpair(
+                clist(csurf(s) for s in surfs),
+                cres(out, lambda v: clist(cvec(x) for x in v))))
+            base_meta.append(surfs)
         if num % 3 == 0 or fault is not None:
             first = rng.randrange(6) if rng.random() < 0.95 else rng.choice([6, 7])
             vout = guarded(LT.hexVertices, surfs, first)
@@ -788,7 +792,7 @@ def run(res, tier, seed, proofs_ok):
                                                  'listing': listing},
                                        'observed': repr(vout)},
                                       found_input=True)
-        if num % 5 == 0 or fault is not None:
+        if num % (8 if quick else 5) == 0 or fault is not None:
             six = surfs[:6] if rng.random() < 0.9 else surfs
             sout = guarded(LT.hexSortSides, six)
             if sout[0] == 'err' or finite(sout[1]):
